@@ -3,6 +3,6 @@
    Run from /verif/build (extraction writes to the current directory in Coq 8.16). *)
 From Coq Require Import List ZArith QArith Ascii String Bool.
 From Coq Require Import ExtrOcamlBasic ExtrOcamlString.
-From GBS Require Import Model.PyStr Model.Num Model.Bond Model.Select Model.Gen Model.Sys Model.SysGen Model.FFSel Model.DistFam Model.Dist Model.RGraph Model.AGraph Model.Token Model.Render Model.SysSplit Model.AGen Model.Stoch Model.Mol Model.SystemM.
+From GBS Require Import Model.PyStr Model.Num Model.Bond Model.Select Model.Gen Model.Sys Model.SysGen Model.FFSel Model.DistFam Model.Dist Model.RGraph Model.AGraph Model.Token Model.Render Model.SysSplit Model.AGen Model.Stoch Model.Mol Model.SystemM Check.Show.
 Extraction "model.ml" parse_descr print_descr compatible generable_descr compatible_bond_text py_float py_int
-  law trans_law compat_idx run_gen estimate sys_loop yielded ending comp_law share assign plumb fs_pmf fs_cdf stop_index reaction_graph atom_graph parse_token print_token fragment_string token_generable erase_ext system_pieces run_agen parse_stoch stoch_generable parse_molecule molecule_generable parse_system.
+  law trans_law compat_idx run_gen estimate sys_loop yielded ending comp_law share assign plumb fs_pmf fs_cdf stop_index reaction_graph atom_graph parse_token print_token fragment_string token_generable erase_ext system_pieces run_agen parse_stoch stoch_generable parse_molecule molecule_generable parse_system check_descr check_token check_mol.
